@@ -3,8 +3,9 @@
    optional motif list and the optional INTEGER thresholds (gc_min, gc_max, at_max) that the three float comparisons of
    the Python reduce to for integer counts (see Filter.v); the theorems hold for all integer thresholds, hence for
    whatever the floats produce.  The threshold computation itself is compared bit-for-bit by the harness. *)
-From DSW Require Import Py Filter Spec FilterSpec.
-From DSW.Proofs Require Import FilterProofs.
+From Coq Require Import ZArith PrimFloat.
+From DSW Require Import Py Filter Spec FilterSpec Thresholds.
+From DSW.Proofs Require Import FilterProofs ThresholdProofs.
 
 Theorem C12_whole : forall c s, 1 <= f_k c -> (valid c false s = true <-> window_pred c s).
 Proof. exact valid_whole. Qed.
@@ -27,6 +28,21 @@ Theorem C12_constructor : forall c, ctor_accepts c = true <->
    (forall ms, f_motifs c = Some ms -> Forall (fun m => Z.of_nat (length m) <= f_k c) ms)).
 Proof. exact ctor_spec. Qed.
 
+(* the float -> integer threshold step (uses the standard library's specification axioms of primitive floats and of Uint63,
+   and Flocq): for integer counts 0 <= g, a <= 2^52 and finite non-negative products, the comparisons the Python performs in
+   binary64 are exactly the comparisons with the integer thresholds computed by Thresholds.thresholds, for the window rule and
+   for the short-string rule *)
+Theorem C12_float_window_rule : forall lo hi k g, fin_nonneg (lo * fz k)%float -> fin_nonneg (hi * fz k)%float ->
+  (0 <= g <= 2 ^ 52)%Z ->
+  window_ok_float lo hi k g =
+    (let '(gmin, gmax, amax) := thresholds lo hi k in negb (gmax <? g)%Z && negb (g <? gmin)%Z).
+Proof. exact window_rule_thresholds. Qed.
+Theorem C12_float_short_rule : forall lo hi k g a, fin_nonneg (hi * fz k)%float -> fin_nonneg ((1 - lo) * fz k)%float ->
+  (0 <= g <= 2 ^ 52)%Z -> (0 <= a <= 2 ^ 52)%Z ->
+  short_ok_float lo hi k g a =
+    (let '(gmin, gmax, amax) := thresholds lo hi k in negb (gmax <? g)%Z && negb (amax <? a)%Z).
+Proof. exact short_rule_thresholds. Qed.
+
 (* the doctest configuration: k = 8, run 2, GC 0.4..0.6 (thresholds 4, 4, 4 = ceil 3.2, floor 4.8, floor 4.8), motif GC *)
 Example C12_nonvacuous :
   let c := {| f_k := 8; f_run := Some 2; f_motifs := Some [[71; 67]]; f_gc := Some (4, 4, 4) |} in
@@ -41,3 +57,5 @@ Print Assumptions C12_local_global.
 Print Assumptions C12_revcomp.
 Print Assumptions C12_substring_test.
 Print Assumptions C12_constructor.
+Print Assumptions C12_float_window_rule.
+Print Assumptions C12_float_short_rule.
